@@ -14,6 +14,13 @@ use std::sync::atomic::{AtomicU64, Ordering};
 use std::time::Duration;
 
 const EXIT_LIMIT: Duration = Duration::from_secs(10);
+/// once this many failing cases are known the remaining process runs are skipped (a hanging
+/// server would otherwise cost 10 s per case); the run is then reported as not exhaustive
+const FAIL_FAST: u64 = 24;
+static FAILED: AtomicU64 = AtomicU64::new(0);
+fn saturated() -> bool {
+    FAILED.load(Ordering::Relaxed) >= FAIL_FAST
+}
 
 fn history_json(h: &[Msg]) -> Vec<Value> {
     h.iter().enumerate().map(|(i, m)| to_json(*m, i)).collect()
@@ -54,6 +61,41 @@ pub fn eval_process(h: &[Msg]) -> Option<(String, String)> {
             if o.exit_code.is_none() {
                 return Some(("no-exit-status".into(), String::new()));
             }
+        }
+    }
+    None
+}
+
+/// (a2) one history against the binary, fully pipelined in one write, then end of input
+pub fn eval_pipelined(h: &[Msg]) -> Option<(String, String)> {
+    let exp = expect(h);
+    let bytes: Vec<u8> = history_json(h).iter().flat_map(frame).collect();
+    let mut o = procdrv::run_chunks(&[bytes.clone()], false, EXIT_LIMIT);
+    if o.timed_out {
+        o = procdrv::run_chunks(&[bytes], false, EXIT_LIMIT);
+        if o.timed_out {
+            return Some(("pipelined:no-exit-after-end-of-input".into(), format!("no exit within {:?}", EXIT_LIMIT)));
+        }
+    }
+    if o.signaled {
+        return Some(("pipelined:killed-by-signal".into(), String::new()));
+    }
+    if let Some(e) = &o.frame_error {
+        // an ungraceful exit(1) may tear the last frame
+        if exp.exit_code != Some(1) {
+            return Some(("pipelined:malformed-output".into(), e.clone()));
+        }
+        return None;
+    }
+    // `exit` outside the shutdown phase ends the process at once; responses still queued may be
+    // lost there (ungraceful by definition) - everywhere else every response must arrive
+    let require_all = exp.exit_code != Some(1);
+    if let Err((k, d)) = check_responses(&o.frames, &exp, require_all) {
+        return Some((format!("pipelined:{}", k), d));
+    }
+    if let Some(c) = exp.exit_code {
+        if o.exit_code != Some(c) {
+            return Some((format!("pipelined:exit-status-{:?}-instead-of-{}", o.exit_code, c), String::new()));
         }
     }
     None
@@ -127,6 +169,7 @@ pub fn eval_schedules(h: &[Msg], bound: usize, clamp: Option<usize>) -> (u64, u6
     let exp = expect(h);
     let msgs = history_json(h);
     let env = EnvConfig { chunks: msgs.iter().map(frame).collect(), feeder_task: false, clamp, stdout_cap: None, delay_bounded: false };
+    let _g = watch("C18", || json!({"history": class_string(h), "bound": bound, "clamp": clamp, "mode": "in-process"}).to_string());
     let e = sched::explore(&env, bound);
     let case = |sched: &[usize]| json!({"history": class_string(h), "schedule": sched, "bound": bound, "clamp": clamp});
     if let Some((msg, s)) = &e.abort {
@@ -169,8 +212,22 @@ pub fn run(tier: Tier) -> Report {
     let hist = all_histories(tier.pick(4, 5));
     let fa: Vec<Failure> = hist
         .par_iter()
-        .filter_map(|h| {
-            eval_process(h).map(|(k, d)| Failure { key: format!("lifecycle:{}", k), case: json!({"history": class_string(h), "mode": "process-lockstep"}), detail: format!("history {}: {}", class_string(h), d) })
+        .flat_map_iter(|h| {
+            let mut out = vec![];
+            if saturated() {
+                return out;
+            }
+            if let Some((k, d)) = eval_process(h) {
+                FAILED.fetch_add(1, Ordering::Relaxed);
+                out.push(Failure { key: format!("lifecycle:{}", k), case: json!({"history": class_string(h), "mode": "process-lockstep"}), detail: format!("history {}: {}", class_string(h), d) });
+            }
+            if !saturated() {
+                if let Some((k, d)) = eval_pipelined(h) {
+                    FAILED.fetch_add(1, Ordering::Relaxed);
+                    out.push(Failure { key: format!("lifecycle:{}", k), case: json!({"history": class_string(h), "mode": "process-pipelined"}), detail: format!("history {} (pipelined): {}", class_string(h), d) });
+                }
+            }
+            out
         })
         .collect();
     let n_a = hist.len() as u64;
@@ -204,7 +261,8 @@ pub fn run(tier: Tier) -> Report {
         .collect();
     let fb: Vec<Failure> = prefix_cases
         .par_iter()
-        .filter_map(|(h, c)| eval_prefix(h, *c).map(|(k, d)| Failure { key: format!("lifecycle:{}", k), case: json!({"history": class_string(h), "prefix_bytes": c, "mode": "process-prefix-eof"}), detail: format!("history {} cut at {}: {}", class_string(h), c, d) }))
+        .filter(|_| !saturated())
+        .filter_map(|(h, c)| eval_prefix(h, *c).map(|x| { FAILED.fetch_add(1, Ordering::Relaxed); x }).map(|(k, d)| Failure { key: format!("lifecycle:{}", k), case: json!({"history": class_string(h), "prefix_bytes": c, "mode": "process-prefix-eof"}), detail: format!("history {} cut at {}: {}", class_string(h), c, d) }))
         .collect();
     let n_b = prefix_cases.len() as u64;
     let t_b = rep.start.elapsed().as_secs_f64();
@@ -239,11 +297,11 @@ pub fn run(tier: Tier) -> Report {
         .collect();
     fails.extend(fc);
     rep.states = n_a + n_b + safe.len() as u64;
-    rep.transitions = n_a + n_b + execs.load(Ordering::Relaxed);
+    rep.transitions = 2 * n_a + n_b + execs.load(Ordering::Relaxed);
     rep.evaluations = rep.transitions;
-    rep.traces_validated = n_a + n_b;
+    rep.traces_validated = 2 * n_a + n_b;
     rep.distinct_nontrivial = n_a;
-    rep.rule = "all message histories over {initialize, initialized, supported request, unknown request, didOpen, unknown notification, shutdown, exit} up to the length bound against the release binary (lock-step client, then end of input): responses per the lifecycle automaton, exit status, prompt exit; every byte prefix of every short session followed by end of input; in process (real run(), tokio shim) every history that does not reach process::exit(1), delivered pipelined, under every schedule within the preemption bound with the real channel capacities and with capacities clamped to 1: no deadlock, run() returns Ok, every expected response present at the instant run() returns, one distinct output".into();
+    rep.rule = "all message histories over {initialize, initialized, supported request, unknown request, didOpen, unknown notification, shutdown, exit} up to the length bound against the release binary, once with a lock-step client and once fully pipelined in one write (then end of input): responses per the lifecycle automaton, exit status, prompt exit; every byte prefix of every short session followed by end of input; in process (real run(), tokio shim) every history that does not reach process::exit(1), delivered pipelined, under every schedule within the preemption bound with the real channel capacities and with capacities clamped to 1: no deadlock, run() returns Ok, every expected response present at the instant run() returns, one distinct output".into();
     rep.bounds = json!({"seconds_process_histories": t_a, "seconds_prefixes": t_b - t_a, "seconds_schedules": rep.start.elapsed().as_secs_f64() - t_b, "history_length": tier.pick(4,5), "histories_process": n_a, "prefix_cases": n_b, "prefix_history_length": tier.pick(2,3), "histories_in_process": safe.len(), "preemption_bound": bound, "preemption_bound_longest_histories": bound - 1, "schedules_explored": execs.load(Ordering::Relaxed), "scheduling_decisions": decisions.load(Ordering::Relaxed), "histories_with_schedule_dependent_output": multi.load(Ordering::Relaxed)});
     rep.sample(json!({"history": "IiRSX", "expected": "init result, served, null; exit status 0"}));
     rep.sample(json!({"history": "IX", "expected": "init result; exit status 1"}));
@@ -252,6 +310,10 @@ pub fn run(tier: Tier) -> Report {
         "interleavings are explored at channel / stdio operations of cooperatively scheduled tasks (complete for the multi-threaded runtime while tasks share only channels)".into(),
         "wall-clock time only for hang detection (10 s, re-run alone before it counts)".into(),
     ];
+    if saturated() {
+        rep.exhaustive = false;
+        rep.extra.insert("fail_fast".into(), json!(format!("process runs were skipped after {} failing cases", FAIL_FAST)));
+    }
     rep.failures = fails;
     rep
 }
@@ -290,6 +352,8 @@ pub fn replay(case: &Value) -> Vec<Failure> {
                 }
             }
         }
+    } else if case["mode"] == json!("process-pipelined") {
+        eval_pipelined(&h)
     } else {
         eval_process(&h)
     };
